@@ -95,6 +95,20 @@ theorem wf_finish (st : State) (h : WF st) (sid : Nat) : WF (st.finish sid) := b
     exact h.chan_open p hp.1 x hx
 
 
+theorem unregister_obj (st : State) (sid oid : Nat) : (st.unregister sid).obj oid = st.obj oid := rfl
+
+/-- the state with the cache of another state: `WF` looks at the cache only through `cache_sid` -/
+theorem wf_unregister_of_finish (st : State) (sid : Nat) (h : WF st) (hf : WF (st.finish sid)) : WF (st.unregister sid) :=
+  ⟨hf.table_obj, hf.sids_nodup, hf.oids_nodup, h.cache_sid, hf.chan_open⟩
+
+theorem wf_unregister (st : State) (h : WF st) (sid : Nat) : WF (st.unregister sid) :=
+  wf_unregister_of_finish st sid h (wf_finish st h sid)
+
+theorem wf_setObj_unregister (st : State) (h : WF st) (oid : Nat) (s s' : Stream) (ho : st.obj oid = some s) (hs : s'.sid = s.sid) :
+    WF ((st.setObj oid s').unregister s.sid) := by
+  have hf := wf_setObj_finish st h oid s s' ho hs
+  exact ⟨hf.table_obj, hf.sids_nodup, hf.oids_nodup, h.cache_sid, hf.chan_open⟩
+
 theorem wf_register (st : State) (h : WF st) (s : Stream) (hn : ¬ (s.sentComplete = true ∧ s.recvComplete = true)) :
     WF (st.register s).1 := by
   have hoids : ∀ p ∈ st.table, p.2 < st.heap.length := by
@@ -215,6 +229,8 @@ macro_rules
     | assumption
     | exact wf_setObj_finish _ (by wf_close) _ _ _ (by first | assumption | exact obj_register _ _) (by rfl)
     | exact wf_finish _ (by wf_close) _
+    | exact wf_setObj_unregister _ (by wf_close) _ _ _ (by first | assumption | exact obj_register _ _) (by rfl)
+    | exact wf_unregister _ (by wf_close) _
     | exact wf_markChannel _ (by wf_close) _ _ (by first | assumption | exact obj_setObj_self _ _ _ _ (by first | assumption | exact obj_register _ _) | exact obj_register _ _) _ _
     | exact wf_setObj _ (by wf_close) _ _ _ (by first | assumption | exact obj_register _ _) (by rfl) (by simp)
     | exact wf_register _ (by wf_close) _ (by simp)
@@ -335,6 +351,7 @@ theorem wf_apiStep (st : State) (h : WF st) (ev : Ev) : WF (apiStep st ev).1 := 
       · split <;> wf_close
       · exact h
     · exact h
+  | fnfSent sid => simp only [apiStep]; wf_close
   | recv f b => exact h
   | lost => exact h
   | stopStreams => exact h
@@ -506,7 +523,7 @@ theorem wf_stopOne (st : State) (h : WF st) (sid oid : Nat) (hm : (sid, oid) ∈
   rw [hs0]
   simp only
   subst hsid
-  split <;> (try split) <;> wf_close
+  split <;> (repeat' split) <;> wf_close
 
 theorem wf_stopAll (l : List (Nat × Nat)) : ∀ (st : State), WF st → (∀ p ∈ l, p ∈ st.table) → (l.map (·.1)).Nodup →
     WF (stopAll st l).1 := by
